@@ -1,0 +1,182 @@
+//! The alignment machinery of `vertical.rs` (`rewrite_with_alignment`, `group_aligned_items`,
+//! `struct_field_prefix_max_min_width` and the `AlignedItem` rewriters) run on the field
+//! lists of a parsed snippet: the fields of every struct, of every struct variant of an enum
+//! and of every struct literal that `rewrite_struct_lit` would align.
+
+use rustc_ast::ast;
+use rustc_ast::visit::{self, Visitor};
+use rustc_span::Pos;
+
+use crate::config::Config;
+use crate::parse::parser::Parser;
+use crate::parse::session::ParseSess;
+use crate::rewrite::RewriteContext;
+use crate::shape::{Indent, Shape};
+use crate::source_map::SpanUtils;
+use crate::utils::{mk_sp, trimmed_last_line_width};
+use crate::vertical::{AlignedItem, rewrite_with_alignment, verif_local};
+use crate::visitor::FmtVisitor;
+use crate::{FormatReport, Input};
+
+/// One field: its span (byte offsets into the text), `AlignedItem::skip`, `rewrite_prefix`
+/// (`None` is `Err`) with its `trimmed_last_line_width`, and `rewrite_aligned_item` for every
+/// requested `prefix_max_width` (`None` is `Err`).
+#[derive(Debug, Clone)]
+pub struct FieldRec {
+    pub lo: usize,
+    pub hi: usize,
+    pub skip: bool,
+    pub prefix: Option<String>,
+    pub prefix_width: Option<usize>,
+    pub items: Vec<Option<String>>,
+}
+
+/// One field list: `kind` is `struct`, `variant` or `lit`; `lo..hi` is the span handed to
+/// `rewrite_with_alignment` (from behind the opening brace to the end of the node); `groups`
+/// are the groups `group_aligned_items` cuts (index of the last field of each group, whether
+/// the separator is a blank line) with `struct_field_prefix_max_min_width` of each group;
+/// `out` is the result of `rewrite_with_alignment` (`None` when it fails).
+#[derive(Debug, Clone)]
+pub struct ListRec {
+    pub kind: &'static str,
+    pub lo: usize,
+    pub hi: usize,
+    pub fields: Vec<FieldRec>,
+    pub groups: Vec<(usize, bool)>,
+    pub max_min: Vec<(usize, usize)>,
+    pub out: Option<String>,
+}
+
+struct Walk<'a, 'c> {
+    context: &'a RewriteContext<'c>,
+    indent: Indent,
+    one_line_width: usize,
+    widths: &'a [usize],
+    base: usize,
+    recs: Vec<ListRec>,
+}
+
+impl<'a, 'c> Walk<'a, 'c> {
+    fn list<T: AlignedItem>(&mut self, kind: &'static str, fields: &[T], span: rustc_span::Span) {
+        if fields.is_empty() {
+            return;
+        }
+        let context = self.context;
+        let config = context.config;
+        let shape = match Shape::indented(self.indent, config).sub_width_opt(1) {
+            Some(shape) => shape,
+            None => return,
+        };
+        let body_lo = match context.snippet_provider.opt_span_after(span, "{") {
+            Some(pos) => pos,
+            None => return,
+        };
+        let base = self.base;
+        let recs = fields
+            .iter()
+            .map(|field| {
+                let prefix = field.rewrite_prefix(context, shape).ok();
+                FieldRec {
+                    lo: field.get_span().lo().to_usize() - base,
+                    hi: field.get_span().hi().to_usize() - base,
+                    skip: field.skip(),
+                    prefix_width: prefix.as_ref().map(|s| trimmed_last_line_width(s)),
+                    prefix,
+                    items: self
+                        .widths
+                        .iter()
+                        .map(|w| field.rewrite_aligned_item(context, shape, *w).ok())
+                        .collect(),
+                }
+            })
+            .collect();
+        let groups = verif_local::groups(context, fields);
+        let mut start = 0;
+        let mut max_min = vec![];
+        for (end, _) in &groups {
+            max_min.push(verif_local::max_min(context, &fields[start..=*end], shape));
+            start = end + 1;
+        }
+        let out = rewrite_with_alignment(
+            fields,
+            context,
+            shape,
+            mk_sp(body_lo, span.hi()),
+            self.one_line_width,
+        );
+        self.recs.push(ListRec {
+            kind,
+            lo: body_lo.to_usize() - base,
+            hi: span.hi().to_usize() - base,
+            fields: recs,
+            groups,
+            max_min,
+            out,
+        });
+    }
+}
+
+impl<'a, 'c, 'ast> Visitor<'ast> for Walk<'a, 'c> {
+    fn visit_item(&mut self, item: &'ast ast::Item) {
+        match item.kind {
+            ast::ItemKind::Struct(_, ast::VariantData::Struct { ref fields, .. }, _) => {
+                self.list("struct", fields, item.span);
+            }
+            ast::ItemKind::Enum(_, ref def, _) => {
+                for variant in &def.variants {
+                    if let ast::VariantData::Struct { ref fields, .. } = variant.data {
+                        self.list("variant", fields, variant.span);
+                    }
+                }
+            }
+            _ => {}
+        }
+        visit::walk_item(self, item);
+    }
+
+    fn visit_expr(&mut self, expr: &'ast ast::Expr) {
+        if let ast::ExprKind::Struct(ref se) = expr.kind {
+            let plain = matches!(se.rest, ast::StructRest::None);
+            if plain && se.fields.iter().all(|field| !field.is_shorthand) {
+                self.list("lit", &se.fields, expr.span);
+            }
+        }
+        visit::walk_expr(self, expr);
+    }
+}
+
+/// Parses `src` as a file and runs the alignment machinery on every field list (see
+/// [`ListRec`]), in the order a pre-order walk meets them. Fields are rewritten at the block
+/// indentation `indent`; `one_line_width` is handed to `rewrite_with_alignment` as it is;
+/// `widths` are the values of `prefix_max_width` for which `rewrite_aligned_item` is reported.
+/// `None` when the text does not parse.
+pub fn analyze(
+    src: &str,
+    config: &Config,
+    indent: usize,
+    one_line_width: usize,
+    widths: &[usize],
+) -> Option<Vec<ListRec>> {
+    let mut config = config.clone();
+    config.set().show_parse_errors(false);
+    rustc_span::create_session_if_not_set_then(config.edition().into(), |_| {
+        let psess = ParseSess::new(&config).ok()?;
+        let krate = Parser::parse_crate(Input::Text(src.to_owned()), &psess).ok()?;
+        let provider = psess.snippet_provider(krate.spans.inner_span);
+        let base = provider.start_pos().to_usize();
+        let visitor = FmtVisitor::from_psess(&psess, &config, &provider, FormatReport::new());
+        let context = visitor.get_context();
+        let mut walk = Walk {
+            context: &context,
+            indent: Indent::new(indent, 0),
+            one_line_width,
+            widths,
+            base,
+            recs: vec![],
+        };
+        for item in &krate.items {
+            walk.visit_item(item);
+        }
+        Some(walk.recs)
+    })
+}
